@@ -84,7 +84,7 @@ TAwait == /\ IsEvent("Await") /\ Ready
 
 \* ---- the result
 RespMatches == Ev.err # None \/ Ev.resp = resp
-TRet == /\ IsEvent("Ret") /\ Ready /\ pc \notin {"done", "query"}
+TRet == /\ IsEvent("Ret") /\ Ready /\ pc # "done"
         /\ IF pc = "ret" /\ Ev.err = ret /\ RespMatches
              THEN Return /\ UNCHANGED odd
              ELSE /\ pc' = "done" /\ ret' = Ev.err /\ resp' = Ev.resp /\ odd' = "Result"
